@@ -225,6 +225,7 @@ def handle : Handler := fun op args impl =>
           | _ => "fail:rarefy-valid-args-failed"
         some ⟨"ok " ++ encRows m, v⟩
     | "twice", [] => some ⟨"same", verdictOf (impl == "same") "same-seed-different-result"⟩
+    | "twiceobj", [] => some ⟨"same", verdictOf (impl == "same") "same-seed-different-result-on-the-same-object"⟩
     | _, _ => none
   | _, _ => none
 
